@@ -183,6 +183,15 @@ func genC08(t *Tape, tier string) *Scenario {
 		// the n-th reply write fails (and every later one): the peer is gone as far as writing is concerned
 		cs.SrvFaults.FailWriteAt = 1 + t.Intn(6)
 		cs.AwaitTO = 5 * time.Second
+	} else if t.Chance(1, 8) {
+		// the peer stops reading: the n-th reply write blocks for a while, until WriteTimeout, or for ever
+		cs.SrvFaults.BlockWriteAt = 1 + t.Intn(6)
+		cs.SrvFaults.BlockFor = []Dur{0, 30 * time.Second, 11 * time.Minute}[t.Intn(3)]
+		if t.Bool() {
+			sc.Srv.WriteTO = 10 * time.Minute
+			cs.NoClose = true // the client stays connected, so that the deadline is what ends the write
+		}
+		cs.AwaitTO = 5 * time.Second
 	}
 	cs.defaults()
 	cs.IdleEnd = 30 * time.Second
@@ -248,7 +257,8 @@ func checkC08(sc *Scenario, h *History) []Violation {
 	}
 	// E. what the client sends after the server had reason to give up is not executed,
 	// whether or not the server got round to closing (the error threshold is left to rule C)
-	if x.Self && x.Kind != 2 {
+	// (not judged when a reply write was blocked: the server then meets its input later than it was sent)
+	if x.Self && x.Kind != 2 && sc.Conns[0].SrvFaults.BlockWriteAt == 0 {
 		for _, e := range h.Events {
 			if (e.Kind == "Mail" || e.Kind == "Rcpt") && strings.Contains(e.Arg, "ok-after-") {
 				out = append(out, Violation{Rule: "C08.executed-after-giving-up", Detail: fmt.Sprintf("%s(%s) was executed although it follows the %s", e.Kind, e.Arg, c08Kinds[x.Kind]), Witness: wit})
@@ -356,7 +366,7 @@ func init() {
 		Real:        []string{"smtp.Server.Serve/handleConn/Close", "smtp.Conn command loop, Close, reset, handleStartTLS, panic recovery", "BDAT delivery goroutine", "crypto/tls (kind 7)", "net/textproto", "bufio"},
 		Stub:        []string{"net.Listener (SimListener)", "net.Conn (SimConn) with cut/RST/half-close/stall", "Backend/Session (SimBackend, panics and parks from the plan)", "clock (synctest)", "SMTP client (raw driver)"},
 		Assumptions: []string{"commands fully received before a peer disconnect may legitimately run; a final line cut before its CRLF is not judged", "callback order is the order in which callbacks began (global sequence number taken on entry)"},
-		Required:    []string{"commands_buffered_behind_the_ending", "server_close_lands_inside_NewSession", "logout_parked_during_starttls", "server_closed_connection_QUIT", "server_closed_connection_error-flood", "server_closed_connection_over-long-line", "server_closed_connection_idle-timeout", "server_closed_connection_backend-panic", "server_closed_connection_Server.Close", "server_closed_connection_STARTTLS-vs-Close", "reply_write_failed", "cut_fin", "cut_rst", "logout_returns_an_error", "read_timeout_in_the_middle_of_a_command_line"},
+		Required:    []string{"commands_buffered_behind_the_ending", "server_close_lands_inside_NewSession", "logout_parked_during_starttls", "server_closed_connection_QUIT", "server_closed_connection_error-flood", "server_closed_connection_over-long-line", "server_closed_connection_idle-timeout", "server_closed_connection_backend-panic", "server_closed_connection_Server.Close", "server_closed_connection_STARTTLS-vs-Close", "reply_write_failed", "cut_fin", "cut_rst", "logout_returns_an_error", "read_timeout_in_the_middle_of_a_command_line", "reply_write_blocked_peer_not_reading", "blocked_write_ended_by_WriteTimeout"},
 		QuickRuns:   700, ThoroughRuns: 40000,
 	})
 }
